@@ -63,6 +63,9 @@ def catalogue(quick):
     cat["p_r34x"] = dict(type="RectangularRegion", x1=-3, y1=-4, x2=3.25, y2=4)
     cat["p_d2in"] = dict(type="CircularRegion", cx=3, cy=0, r=2)
     cat["p_d2out"] = dict(type="CircularRegion", cx=3, cy=0.25, r=2)
+    # JSON allows NaN: such a region contains no point, so it covers nothing
+    cat["n_rect"] = dict(type="RectangularRegion", x1=0, y1=0, x2=float("nan"), y2=3)
+    cat["n_disc"] = dict(type="CircularRegion", cx=1.5, cy=1.5, r=float("nan"))
     return cat
 
 
@@ -89,6 +92,10 @@ def overshoot(outer, inner):
 
 def slack(outer, inner):
     """Signed margin: > 0 contained with room, < 0 sticks out (float estimate)."""
+    if G.is_empty(inner):
+        return 1.0
+    if G.is_degenerate(outer):
+        return -1.0
     if outer["type"] == "RectangularRegion":
         x1, x2 = sorted((outer["x1"], outer["x2"]))
         y1, y2 = sorted((outer["y1"], outer["y2"]))
